@@ -269,6 +269,8 @@ def frame_form(repo: Repo, rep: Report) -> None:
 
 
 def run(repo: Repo, rep: Report) -> None:
+    from .encodings import engine_selfcheck
+    engine_selfcheck(rep)
     rep.rule("ENC-S", "single cycle / single path post the reference degree + rank/root (or degree + line-graph connectivity) schema and return the passed-vertex array (deviations triaged by projection)")
     rep.saw(GRAPH, "_active_edges_single_cycle")
     run_family(repo, rep, "active_edges_single_cycle(auxiliary route)", "active_edges_single_cycle", False, lambda n, e, c=None: ref_cycle(n, e, False, c), "cycle")
